@@ -9,6 +9,7 @@ mod emu_x86;
 mod fun_ast;
 mod fuzzrun;
 mod gen_axcut;
+mod gen_core;
 mod gen_fun;
 mod gen_lin;
 mod gen_syntax;
@@ -93,6 +94,7 @@ fn main() {
             let file = if PathBuf::from(&file).is_absolute() { PathBuf::from(file) } else { root.join(file) };
             checks::run_replay(&ctx, &file)
         }
+        "compile1" => checks::c18::child_main(&rest[0]),
         "stage" => {
             // fresh-process helper of C17: print every printable stage of one file
             let text = std::fs::read_to_string(&rest[0]).unwrap_or_default();
@@ -134,6 +136,10 @@ fn main() {
             let file = PathBuf::from(&rest[0]);
             let budget: usize = rest.get(1).and_then(|s| s.parse().ok()).unwrap_or(2000);
             checks::run_shrink(&ctx, &file, budget)
+        }
+        "gencore" => {
+            checks::corecase::print_samples(&ctx, rest.first().and_then(|s| s.parse().ok()).unwrap_or(3));
+            0
         }
         "gen" => {
             checks::print_samples(&ctx, rest.first().and_then(|s| s.parse().ok()).unwrap_or(3));
